@@ -973,7 +973,88 @@ std::string md5_of_pieces(const std::vector<std::string> &pieces) {
     return vh::hex(out.p(), 16);
 }
 
+// Large inputs (64 KiB .. 16 MiB): the message is `block` repeated and cut to n bytes, described to the reference by
+// (n, block) so nothing big crosses the pipe. Sizes and fills are walked deterministically (k = number of the large case),
+// so that every run - also a scaled-down one - meets inputs whose 16-bit word sum exceeds 2^32 and inputs of >= 1 MiB.
+void digest_big_case(uint64_t idx, uint64_t k, vh::Rng &r) {
+    static const size_t sizes[] = {131075, 262144, 1048576, 4194304, 65535, 65536, 65537, 131074, 131076, 262142, 262143,
+                                   262145, 262146, 1048577, 8388611, 16777216, 200001, 524289, 2097150, 65538};
+    const size_t NS = sizeof sizes / sizeof sizes[0];
+    size_t n = sizes[k % NS];
+    if (n >= (4u << 20) && (k / NS) % 2 == 1) n = (4u << 20) + r.below(12u << 20);     // every other round: some size in 4..16 MiB
+    std::string block;
+    unsigned fill = (unsigned)((k + k / NS) % 7);
+    const char *fname;
+    switch (fill) {
+        case 0: block = std::string(1, (char)0xff); fname = "0xFF"; break;
+        case 1: { size_t bl = r.pick(std::vector<size_t>{251, 509, 1021, 4099}); block = r.bytes(bl); fname = "random block, prime period"; break; }
+        case 2: block = std::string(1, (char)0x80); fname = "0x80"; break;
+        case 3: block = std::string("\xff\x00", 2); fname = "alternating ff 00"; break;
+        case 4: block = std::string(1, (char)0x00); fname = "0x00"; break;
+        case 5: block = std::string("\x00\xff", 2); fname = "alternating 00 ff"; break;
+        default: { block = r.bytes(3 + r.below(30)); for (auto &c : block) c |= (char)0xc0; fname = "random high-valued block"; break; }
+    }
+    std::string data(n, '\0');
+    {   // block repeated and cut to n bytes (doubling copy)
+        size_t have = std::min(block.size(), n);
+        memcpy(&data[0], block.data(), have);
+        while (have < n) { size_t c = std::min(have - have % block.size(), n - have); memcpy(&data[have], &data[0], c); have += c; }
+    }
+    vh::Sig sig; sig.add(n); sig.add(block);
+    vh::st().case_desc = vh::fmt("digest large input: %zu bytes, fill %s, block=%s", n, fname, show(block, 40).c_str());
+    uint16_t seed16 = r.chance(1, 2) ? 0xffff : (uint16_t)r.next();
+    uint32_t seed32 = r.chance(1, 2) ? 0xffffffffu : (uint32_t)r.next();
+    std::string ans = refq(vh::fmt("big %zu %s %u %u", n, H(block).c_str(), seed16, seed32));
+    unsigned long w16 = 0, w32 = 0, w8 = 0, ws16 = 0; char wmd5[40] = "";
+    if (sscanf(ans.c_str(), "%lu %lu %lu %lu %39s", &w16, &w32, &w8, &ws16, wmd5) != 5) fatal("ref-bad-big");
+    In in(data);
+    // how far a 32-bit accumulator of the big-endian words would have to go (coverage counter only, not an oracle)
+    uint64_t word_sum = 0;
+    for (size_t i = 0; i + 1 < n; i += 2) word_sum += ((unsigned)(uint8_t)data[i] << 8) | (uint8_t)data[i + 1];
+    if (n & 1) word_sum += (unsigned)(uint8_t)data[n - 1] << 8;
+    uint64_t byte_sum = 0;
+    for (size_t i = 0; i < n; ++i) byte_sum += (uint8_t)data[i];
+
+    step("CalcCrc16 large n=%zu", n);
+    unsigned got16 = tbox::util::CalcCrc16(in.p, n, seed16);
+    VH_CHECK(got16 == w16, "crc16/wrong", "CalcCrc16(%zu bytes of %s, seed %u)=%u reference %lu", n, fname, seed16, got16, w16);
+    step("CalcCrc32 large n=%zu", n);
+    uint32_t got32 = tbox::util::CalcCrc32(in.p, n, seed32);
+    VH_CHECK(got32 == w32, "crc32/wrong", "CalcCrc32(%zu bytes of %s, seed %u)=%u reference %lu", n, fname, seed32, got32, w32);
+    step("CalcCheckSum8 large n=%zu", n);
+    unsigned got8 = tbox::util::CalcCheckSum8(in.p, n);
+    VH_CHECK(got8 == w8, "checksum8/wrong", "CalcCheckSum8(%zu bytes of %s)=%u reference %lu (plain byte sum %llu)", n, fname, got8, w8, (unsigned long long)byte_sum);
+    step("CalcCheckSum16 large n=%zu", n);
+    unsigned gots16 = tbox::util::CalcCheckSum16(in.p, n);
+    VH_CHECK(gots16 == ws16, "checksum16/wrong", "CalcCheckSum16(%zu bytes of %s)=0x%04x reference 0x%04lx (plain word sum %llu = %.3f * 2^32)", n, fname, gots16, ws16,
+             (unsigned long long)word_sum, (double)word_sum / 4294967296.0);
+    {   // MD5: at once, and in a few big pieces cut at arbitrary offsets
+        std::vector<size_t> cuts;
+        size_t np = r.below(4);
+        for (size_t i = 0; i < np; ++i) cuts.push_back(r.chance(1, 2) ? r.below(n + 1) : (r.below(n / 64 + 1) * 64) % (n + 1));
+        cuts.push_back(0); cuts.push_back(n);
+        std::sort(cuts.begin(), cuts.end());
+        tbox::crypto::MD5 m;
+        std::string desc;
+        for (size_t i = 0; i + 1 < cuts.size(); ++i) { m.update(in.p + cuts[i], cuts[i + 1] - cuts[i]); desc += std::to_string(cuts[i + 1] - cuts[i]) + ","; }
+        Out out(16);
+        step("MD5 large n=%zu pieces %s", n, desc.c_str());
+        m.finish(out.p()); out.check("md5-finish");
+        VH_CHECK(vh::hex(out.p(), 16) == wmd5, "md5/wrong", "MD5 of %zu bytes of %s fed as pieces [%s] = %s, hashlib %s", n, fname, desc.c_str(), vh::hex(out.p(), 16).c_str(), wmd5);
+        if (cuts.size() > 2) vh::counter("md5_multi_update");
+    }
+    vh::counter("digest_large_inputs");
+    vh::counter("crc16"); vh::counter("crc32"); vh::counter("sum8"); vh::counter(n & 1 ? "sum16_odd" : "sum16_even");
+    if (n >= (128u << 10)) vh::counter("sum16_input_ge_128KiB");
+    if (word_sum >> 32) vh::counter("sum16_word_sum_exceeds_2p32");
+    if (byte_sum >> 16) vh::counter("sum8_byte_sum_exceeds_2p16");
+    if (n >= (1u << 20)) { vh::counter("crc_input_ge_1MiB"); vh::counter("md5_input_ge_1MiB"); }
+    vh::counter_max("max_digest_input_bytes", n);
+    vh::note_case(sig.h, true);
+}
+
 void digest_case(uint64_t idx, vh::Rng &r) {
+    if (idx % 500 == 3) { digest_big_case(idx, idx / 500, r); return; }
     vh::Sig sig;
     static const size_t edges[] = {0, 1, 2, 3, 55, 56, 57, 63, 64, 65, 119, 120, 121, 127, 128, 129, 191, 192, 193};
     size_t n = r.chance(1, 3) ? r.pick(edges) : r.chance(1, 40) ? r.below(70000) : r.below(700);
